@@ -289,6 +289,12 @@ impl Recovery {
         }
     }
 
+    // Verification hook: lets the component driver reach the RTO transition.
+    #[cfg(librqbit_utp_verif)]
+    pub fn verif_on_rto_timeout(&mut self, last_sent_seq_nr: SeqNr) {
+        self.on_rto_timeout(last_sent_seq_nr)
+    }
+
     pub(crate) fn on_rto_timeout(&mut self, last_sent_seq_nr: SeqNr) {
         if let RecoveryPhase::Recovering(rec) = &self.phase {
             event!(
